@@ -2,7 +2,7 @@ import itertools
 from vp.api import Q, Mutant
 from vp import ptg
 
-TITLE = "PTG execution respects dependencies and delivers the named data (O1 edges = C01/O3, O2 data lookup, O3 output slot bookkeeping)"
+TITLE = "PTG execution respects dependencies and delivers the named data (O1 edges = C01/O3, O2 data lookup, O3 output slot bookkeeping, O4 final write-back)"
 J2C = "parsec/interfaces/ptg/ptg-compiler/jdf2c.c"
 OUTSIDE = ["O1 (a task is released only by, and by all of, its reference predecessors) is decided by the C01 queries succ_* / goal_* on the same corpus",
            "JDF programs outside the corpus; globals outside the box", "reshape conversions (C18), remote data, the datacopy futures behind a repository slot (C29)",
@@ -30,7 +30,14 @@ def corpus(ctx):
         ("jdf:derived.jdf", "derived", 2, [("P", 0, 0, 1), ("Q", 1, 1, 0)], [range(-1, 3)], lambda g: max(g[0] + 2, 3)),
         ("jdf:pingpong.jdf", "pingpong", 1, [("PING", 0, 1, 1), ("PONG", 1, 1, 1)], [r5 if t else r4], lambda g: g[0] + 1),
         ("repo:examples/Ex02_Chain.jdf", "Ex02_Chain", 1, [("Task", 0, 1, 1)], [r5 if t else r4], lambda g: g[0] + 1),
+        # O4 only: every spelling of an output dependency ending in memory; unguarded memory output of a derived-local class
+        ("jdf:writeback.jdf", "writeback", 2, [("W", 0, 1, 1)], [r5 if t else r4], lambda g: g[0] + 1),
+        ("jdf:between.jdf", "between", 2, [("T", 0, 0, 0), ("U", 1, 0, 0)], [r4], lambda g: max(g[0] + 1, 3)),
     ]
+
+# O4: (jdf, class) -> (some output ends in memory, some output goes to a task)
+MEMOUT = {("chain", "C"): (1, 1), ("pingpong", "PONG"): (1, 1), ("writeback", "W"): (1, 1), ("between", "T"): (1, 0), ("between", "U"): (1, 0)}
+O4_ONLY = ("writeback", "between")
 
 def kf_open(kid):
     import json, os
@@ -56,9 +63,21 @@ def queries(ctx):
         for cls, cid, haspred, hassucc in classes:
             if name == "grid" and cls == "G" and kf_open("C01-descending-range"):
                 pass          # release_deps of G iterates successors too; its activation COUNT is not asserted here, so the known finding does not show
-            cd = ["JDF=" + name, "CLS=" + cls, "CID=%d" % cid, "VP_DC_NCOORD=%d" % nco, "VP_NDATA=4"]
+            cd = ["JDF=" + name, "CLS=" + cls, "CID=%d" % cid, "VP_DC_NCOORD=%d" % nco, "VP_NDATA=6"]
             if name == "tree" and cls == "S":
                 continue          # S has a single control flow: nothing to look up, nothing to store
+            # ---- O4 final write-back
+            mem, tsk = MEMOUT.get((name, cls), (0, 1))
+            for ci, ch in enumerate(chunks(vals, 6)):
+                qs.append(Q("writeback_%s_%s_%d" % (name, cls, ci), ["o4_writeback.c"],
+                            defs=cd + vdefs(ch) + ([] if mem else ["NO_WRITE"]) + (["HAS_TASK_OUT"] if (mem and tsk) else []),
+                            unwind=max(20, max(trip(v) for v in ch) + 3),
+                            info={"obligation": "O4 final write-back", "symbolic": ["task instance s", "output flow f", "output copy already in its tile (bit)"],
+                                  "enumerated": {"globals": [list(v) for v in ch]}, "jdf": jdf, "class": cls,
+                                  "stubs": STUBS + ["parsec_remote_dep_memcpy (recorder)", "release_deps callbacks (recording)"],
+                                  "functions": ["complete_hook_of_%s_%s" % (name, cls), "release_deps_of_%s_%s" % (name, cls)]}, **base))
+            if name in O4_ONLY:
+                continue
             for ci, ch in enumerate(chunks(vals, 6)):
                 qs.append(Q("lookup_%s_%s_%d" % (name, cls, ci), ["o2_lookup.c"], defs=cd + vdefs(ch) + ([] if haspred else ["NO_PRED"]),
                             unwind=max(20, max(trip(v) for v in ch) + 3),
@@ -87,6 +106,26 @@ def mutants(ctx):
                '"%s        consumed_entry_key = %s((const parsec_taskpool_t*)__parsec_tp, (const parsec_assignment_t*)target_locals) ;\\n"',
                '"%s        consumed_entry_key = %s((const parsec_taskpool_t*)__parsec_tp, (const parsec_assignment_t*)&this_task->locals) ;\\n"',
                queries=["lookup_chain_C_0", "lookup_pingpong_PONG_0"]),
+        # O4: `-> (cond) ? task : memory` written back under (cond) instead of !(cond)
+        Mutant("writeback_task_memory_ternary_guard_not_negated", J2C,
+               'coutput("  if( !(%s) ) {\\n",\n                        dump_expr((void**)dl->guard->guard, &info));\n                jdf_generate_code_call_final_write( jdf, f, dl->guard->callfalse,',
+               'coutput("  if( %s ) {\\n",\n                        dump_expr((void**)dl->guard->guard, &info));\n                jdf_generate_code_call_final_write( jdf, f, dl->guard->callfalse,',
+               queries=["writeback_chain_C_0", "writeback_writeback_W_0"]),
+        # O4: `-> (cond) ? memory : task` written back unconditionally-negated
+        Mutant("writeback_memory_task_ternary_guard_negated", J2C,
+               'case JDF_GUARD_TERNARY:\n            if( dl->guard->calltrue->var == NULL ) {\n                coutput("  if( %s ) {\\n",',
+               'case JDF_GUARD_TERNARY:\n            if( dl->guard->calltrue->var == NULL ) {\n                coutput("  if( !(%s) ) {\\n",',
+               queries=["writeback_writeback_W_0"]),
+        # O4: a guarded memory output `-> (cond) ? memory` is never written back
+        Mutant("writeback_binary_guard_memory_skipped", J2C,
+               'case JDF_GUARD_BINARY:\n            if( dl->guard->calltrue->var == NULL ) {\n                coutput("  if( %s ) {\\n",\n                        dump_expr((void**)dl->guard->guard, &info));\n                jdf_generate_code_call_final_write(',
+               'case JDF_GUARD_BINARY:\n            if( dl->guard->calltrue->var == NULL ) {\n                coutput("  if( 0 && (%s) ) {\\n",\n                        dump_expr((void**)dl->guard->guard, &info));\n                jdf_generate_code_call_final_write(',
+               queries=["writeback_writeback_W_0"]),
+        # O4: the write-back targets the tile of the task's affinity instead of the tile named by the output dependency
+        Mutant("writeback_in_place_test_inverted", J2C,
+               '"%s  if( (NULL != this_task->data._f_%s.data_out) && (this_task->data._f_%s.data_out->original != data_t_desc) ) {\\n"',
+               '"%s  if( (NULL != this_task->data._f_%s.data_out) && (this_task->data._f_%s.data_out->original == data_t_desc) ) {\\n"',
+               queries=["writeback_between_T_0", "writeback_chain_C_0"]),
         # O3: entries consumed by READ flows are never released
         Mutant("release_skips_read_flows", J2C,
                'if( dl->flow_flags & JDF_FLOW_TYPE_CTL ) continue;\n        if(consume_repo){',
